@@ -9,6 +9,7 @@ import (
 	"math/rand/v2"
 	"reflect"
 	"sort"
+	"strings"
 	"testing/iotest"
 	"time"
 
@@ -362,6 +363,17 @@ func runTR(e *env) {
 		runInvalidator(e)
 	default:
 		e.out.Internal = "unknown TR mode"
+	}
+
+	if e.sc.Prop == "C09" {
+		// label-association rules reported under C09 (key-buffer reuse through AddLabels)
+		for i := range e.out.Violations {
+			e.out.Violations[i].Rule = strings.Replace(e.out.Violations[i].Rule, "C15.", "C09.R3-", 1)
+		}
+
+		if e.out.Faults["mutate_key_after_return"] > 0 {
+			e.out.probe("label_key_buffer_rewritten_after_AddLabels")
+		}
 	}
 
 	for _, f := range e.cleanup {
